@@ -140,7 +140,11 @@ def judge(sim, rec, res, case):
                     elif (ts, ec) != exp:
                         viol('outcome-untruthful', '%s: got %s/%s, process '
                              'ended %s' % (uid, ts, ec, exp))
-                if spec['poison']:
+                if spec['poison'] and r['cancel_req'] and ts == rps.CANCELED:
+                    # the launch step failed after the spawn while a cancel
+                    # request owned the task already: one CANCELED hand-over
+                    res.count('cancel_won_over_launch_fault')
+                elif spec['poison']:
                     viol('poisoned-task-collected', '%s: launch failed at %s '
                          'but task was pushed to staging' % (uid,
                                                              spec['poison']))
